@@ -441,6 +441,22 @@ class G:
         for k in range(nf):
             fields.append(Field(NAMES[k % len(NAMES)] if shape == "named" else None, self.ch(TYPES),
                                 self.field_attrs(cparts, has_from, target_named=(shape == "named"), nfields=nf)))
+        if self.pr("repeat_overlap", 0.0):
+            # a later member of a repeat run spells out an instruction of the *same name* as a repeated one, dedicated to
+            # one counterpart (or default where the repeated one is dedicated): the two must not shadow each other
+            for i, f in enumerate(fields[:-1]):
+                rep = next((a for a in f.attrs if a.name == "repeat"), None)
+                maps = [a for a in f.attrs if a.tag and a.tag[0] == "mmap"]
+                if rep is not None and maps and (rep.args in (None, "") or "map" in (rep.args or "")):
+                    src = self.ch(maps)
+                    tgt = self.ch(fields[i + 1:])
+                    if any(a.name in ("repeat", "skip_repeat", "stop_repeat") for a in tgt.attrs):
+                        continue
+                    c = self.ch(cparts)
+                    body = self.ch(OTHER) if shape == "named" else str(r.randrange(0, max(1, nf)))
+                    ded = "" if (src.tag[1] is not None) else ((c + "| ") if not c.startswith("(") else "")
+                    tgt.attrs.append(Instr(src.name, ded + body + self.ch(["", ", ~.clone()"]), tag=("mmap", c if ded else None)))
+                    break
         r.shuffle(attrs) if self.pr("shuffle_type_attrs", 0.3) else None
         self.unknowns(attrs, fields, True)
         it = Item("struct", name, shape, self.generics(), attrs, fields)
@@ -458,6 +474,8 @@ class G:
         prim = self.pr("enum_prim", 0.0)
         if prim:
             cparts = [self.ch(["i32", "u8", "&'static str", "String"])]
+            if self.pr("prim_multi", 0.0):
+                cparts = self.r.sample(["i32", "i64", "u8", "u16"], 2)
         attrs = []
         names = [n for n in ALL24 if "existing" not in n] if not self.pr("enum_existing", 0.02) else ALL24
         for c in cparts:
@@ -478,8 +496,21 @@ class G:
             if prim:
                 if self.pr("lit", 0.6):
                     vat.append(Instr("literal", self.ch([str(k), str(k * 10), f"\"s{k}\"", "-1"]), tag=("lit", None)))
+                    if len(cparts) > 1 and self.pr("lit_pair", 0.5):
+                        # a default and a dedicated literal side by side, in either order
+                        l2 = Instr("literal", self.ch(cparts) + "| " + str(k * 100 + 7), tag=("lit", None))
+                        if self.pr("x", 0.5):
+                            vat.append(l2)
+                        else:
+                            vat.insert(len(vat) - 1, l2)
                 elif self.pr("pat", 0.7):
                     vat.append(Instr("pattern", self.ch([f"{k}..={k + 5}", f"{k} | {k + 100}", "_", f"\"a{k}\" | \"b\"", f"x if x > {k}", f"..={k}"]), tag=("pat", None)))
+                    if len(cparts) > 1 and self.pr("lit_pair", 0.5):
+                        p2 = Instr("pattern", self.ch(cparts) + "| " + f"{k}..={k + 50}", tag=("pat", None))
+                        if self.pr("x", 0.5):
+                            vat.append(p2)
+                        else:
+                            vat.insert(len(vat) - 1, p2)
                     if self.pr("pat_into", 0.8):
                         vat.append(Instr(self.ch(["into", "owned_into", "ref_into"]), "{ " + str(k) + " }", tag=("mmap", None)))
                 if self.pr("prim_ghost", 0.0):
@@ -683,7 +714,7 @@ class G:
         for c in cps[: r.randrange(2, 7)]:
             nm = self.ch(names)
             _, fall = kinds_of(nm)
-            s = c + (", MyErr" if fall else "")
+            s = c + ((", " + self.ch(["MyErr", "MyErr", "String", "E2", "m::Err<T>"])) if fall else "")
             ps = []
             mark = self.ch(["", "", "repeat()", "repeat(vars)", "repeat(update)", "repeat(quick_return)", "repeat(vars, update)", "skip_repeat", "stop_repeat",
                             "stop_repeat, repeat()", "stop_repeat, repeat(vars)", "repeat(default_case)"])
@@ -755,19 +786,20 @@ PROFILES = {
              "default_case": 0.3, "fallible": 0.35, "multi_cpart": 0.25, "dedicated": 0.3, "variant_ghosts": 0.08, "ghost_field": 0.1, "try_pair": 0.12},
     "enum-members": {"max_variants": 3, "payload_heavy": 0.85, "member_instr": 0.55, "member_try": 0.4, "try_pair": 0.35, "fallible": 0.6, "dedicated": 0.3,
                      "multi_cpart": 0.3, "type_hint": 0.25, "multi_instr": 0.5, "ghost_field": 0.1, "variant_map": 0.2, "type_hint_pair": 0.5},
-    "enum-prim": {"enum_prim": 1.0, "max_variants": 5, "default_case": 0.6, "fallible": 0.4, "lit": 0.6, "pat": 0.7, "prim_ghost": 0.12},
+    "enum-prim": {"enum_prim": 1.0, "max_variants": 5, "default_case": 0.6, "fallible": 0.4, "lit": 0.6, "pat": 0.7, "prim_ghost": 0.12, "prim_multi": 0.3},
     "tree": {"max_fields": 6, "max_depth": 3, "member_instr": 0.3, "fallible": 0.3, "multi_cpart": 0.3, "hints": 0.2, "ghosts": 0.2, "dedicated": 0.25, "mixed_levels": 0.3, "child_ghosts_ded": 0.35, "ghost_only_child": 0.2, "generic_cpart": 0.15},
     "trait-params": {"max_fields": 3, "vars": 0.5, "attr_params": 0.4, "update": 0.3, "quick_return": 0.2, "default_case": 0.4, "trait_repeat": 0.3,
                      "multi_instr": 0.7, "fallible": 0.4, "member_instr": 0.3},
     "repeat": {"max_fields": 6, "min_fields": 2, "member_repeat": 0.35, "member_instr": 0.5, "ghost_field": 0.15, "max_variants": 4, "variant_map": 0.3,
-               "trait_repeat": 0.4, "vars": 0.3, "update": 0.2, "multi_instr": 0.6, "type_hint": 0.2, "variant_repeat_run": 0.35},
+               "trait_repeat": 0.4, "vars": 0.3, "update": 0.2, "multi_instr": 0.6, "type_hint": 0.2, "variant_repeat_run": 0.35,
+               "multi_cpart": 0.45, "dedicated": 0.4, "repeat_overlap": 0.5},
     "multi-counterpart": {"multi_cpart": 1.0, "dedicated": 0.6, "member_instr": 0.6, "ghost_field": 0.2, "ghosts": 0.3, "where_clause": 0.3, "multi_instr": 0.5,
                           "fallible": 0.3, "variant_map": 0.4, "type_hint": 0.3, "variant_ghost": 0.15, "variant_ghosts": 0.1, "try_pair": 0.15, "child_ghosts_ded": 0.5, "type_hint_pair": 0.5},
     "generics": {"generics": 1.0, "generic_cpart": 0.7, "where_clause": 0.5, "max_fields": 2, "trailing_comma": 0.2, "multi_cpart": 0.3, "fallible": 0.3, "dedicated": 0.4},
     "expr": {"deep_expr": 0.8, "member_instr": 0.7, "ghost_field": 0.2, "ghosts": 0.2, "vars": 0.4, "update": 0.3, "quick_return": 0.15, "default_case": 0.3,
              "variant_map": 0.5, "max_fields": 3},
     "parents": {"lit_args": 0.05, "parent_heavy": 0.8, "parent_depth": 3, "nested_parent": 0.45, "nested_instr": 0.5, "max_fields": 4, "fallible": 0.3, "multi_cpart": 0.5, "hints": 0.3,
-                "dedicated": 0.45, "member_instr": 0.3, "update": 0.1, "vars": 0.1, "generic_cpart": 0.25, "second_parent": 0.5},
+                "dedicated": 0.45, "member_instr": 0.3, "update": 0.1, "vars": 0.1, "generic_cpart": 0.25, "second_parent": 0.5, "attr_params": 0.25},
     "trait-repeat": {"vars": 0.4, "fallible": 0.3, "attr_params": 0.1, "enum_item": 0.3, "lit": 0.3},
     "shape-change": {"shape_change": 0.8, "shape_ghost": 0.3, "fallible": 0.3, "max_variants": 3, "variant_map": 0.1, "member_try": 0.1, "multi_instr": 0.5},
     "unknowns": {"unknowns": 1.0, "max_fields": 3, "member_instr": 0.3, "multi_instr": 0.5, "max_variants": 3, "variant_map": 0.2},
